@@ -176,7 +176,7 @@ pub fn run(run: &'static Run) {
     let quick = run.quick();
     run.rule(
         "DAGs as in C46 (ordered parent lists <=3, 5 committer-date patterns incl. all-equal, equal pairs and skewed): quick n<=3 full + n=4 with ascending \
-         parent lists and zigzag dates; thorough n<=4 full. tips: every single commit and every pair (half of the pairs also reversed); hidden: none or one \
+         parent lists and equal/skewed/zigzag dates; thorough n<=4 full + n=5 with ascending parent lists and skewed/zigzag dates. tips: every single commit and every pair (half of the pairs also reversed); hidden: none or one \
          commit not among the tips (Topo modes only; Simple has no hidden commits); 9 modes: Simple breadth-first / newest-first / oldest-first / \
          first-parent / newest-first with cut-off at the median date; Topo date-order / topo-order, each with all parents and first-parent. Each without commit-graph and with \
          every commit-graph git writes for a prefix (in creation order, hence ancestor-closed) of k = 1..n commits of the DAG (k = n: complete graph; k < n: \
@@ -188,9 +188,9 @@ pub fn run(run: &'static Run) {
 
     let all: &[u8] = &[0, 1, 2, 3, 4];
     let spec: Vec<(usize, bool, &[u8])> = if quick {
-        vec![(1, true, all), (2, true, all), (3, true, all), (4, false, &[3])]
+        vec![(1, true, all), (2, true, all), (3, true, all), (4, false, &[1, 2, 3])]
     } else {
-        vec![(1, true, all), (2, true, all), (3, true, all), (4, true, all)]
+        vec![(1, true, all), (2, true, all), (3, true, all), (4, true, all), (5, false, &[2, 3])]
     };
     let dags: Vec<Dag> = match run.replay_case::<serde_json::Value>("walks").or_else(|| run.replay_case::<serde_json::Value>("git-crosscheck")) {
         Some(v) => vec![serde_json::from_value(v["dag"].clone()).unwrap_or_else(|e| vkit::machinery!("replay case: {e}"))],
@@ -239,7 +239,7 @@ pub fn run(run: &'static Run) {
             }
         }
         let odb = dag::odb(objects);
-        let cg = (c.graph > 0).then(|| dag::load_prefix_graph(objects, c.graph as usize));
+        let cg = (c.graph > 0).then(|| dag::take_prefix_graph(objects, c.graph as usize));
         if c.graph > 0 && (c.graph as usize) < d.n() {
             PARTIAL.fetch_add(1, Ordering::Relaxed);
             let inside = |x: usize| x < c.graph as usize;
@@ -271,8 +271,10 @@ pub fn run(run: &'static Run) {
                     Ok(w) => w,
                     Err(e) => return bad("error", format!("sorting(): {e}")),
                 };
-                let walk = walk.parents(if c.mode == 3 { Parents::First } else { Parents::All }).commit_graph(cg);
-                collect(&mut walk.map(|r| r.map_err(|e| e.to_string())))
+                let mut walk = walk.parents(if c.mode == 3 { Parents::First } else { Parents::All }).commit_graph(cg);
+                let r = collect(&mut walk.by_ref().map(|r| r.map_err(|e| e.to_string())));
+                dag::give_back_prefix_graph(objects, c.graph as usize, walk.verif_take_commit_graph());
+                r
             }
             _ => {
                 let hid: Vec<ObjectId> = hidden.iter().map(|&t| ids[t]).collect();
@@ -281,7 +283,11 @@ pub fn run(run: &'static Run) {
                     .parents(if c.mode >= 7 { Parents::First } else { Parents::All })
                     .with_commit_graph(cg);
                 match b.build() {
-                    Ok(w) => collect(&mut w.map(|r| r.map_err(|e| e.to_string()))),
+                    Ok(mut w) => {
+                        let r = collect(&mut w.by_ref().map(|r| r.map_err(|e| e.to_string())));
+                        dag::give_back_prefix_graph(objects, c.graph as usize, w.verif_take_commit_graph());
+                        r
+                    }
                     Err(e) => Err(format!("build(): {e}")),
                 }
             }
@@ -344,9 +350,6 @@ pub fn run(run: &'static Run) {
                 }
             }
             tip_sets(n, |tips| {
-                if n == 5 && tips.len() > 1 {
-                    return;
-                }
                 for mode in 0..MODES {
                     if git && git_args(mode).is_none() {
                         continue;
